@@ -21,8 +21,8 @@ from pathlib import Path
 VERIF = Path(__file__).resolve().parent.parent
 REPO = Path(os.environ.get("PULSER_REPO", "/repo"))
 LEAN_DIR = VERIF / "lean"
-EVIDENCE = VERIF / "evidence"
-REPLAYS = VERIF / "replays"
+EVIDENCE = Path(os.environ["VERIF_EVIDENCE_DIR"]) if os.environ.get("VERIF_EVIDENCE_DIR") else VERIF / "evidence"
+REPLAYS = (EVIDENCE.parent / "replays") if os.environ.get("VERIF_EVIDENCE_DIR") else VERIF / "replays"
 CORPUS = VERIF / "corpus"
 DRIVER = LEAN_DIR / ".lake" / "build" / "bin" / "pmdriver"
 
@@ -110,11 +110,34 @@ def strip_comments(src: str) -> str:
     return "".join(out)
 
 
-def lean_forbidden_tokens() -> list[str]:
-    hits = []
-    for f in sorted(LEAN_DIR.rglob("*.lean")):
-        if ".lake" in f.parts:
+def lean_import_closure(roots: list[str]) -> list[Path]:
+    """Local Lean files (under lean/) transitively imported by the given modules."""
+    seen: dict[str, Path] = {}
+    todo = list(roots)
+    while todo:
+        m = todo.pop()
+        if m in seen:
             continue
+        f = LEAN_DIR / (m.replace(".", "/") + ".lean")
+        if not f.exists():
+            continue
+        seen[m] = f
+        for line in strip_comments(f.read_text()).splitlines():
+            mm = re.match(r"\s*import\s+(\S+)", line)
+            if mm:
+                todo.append(mm.group(1))
+    return sorted(seen.values())
+
+
+def lean_forbidden_tokens(roots: list[str] | None = None) -> list[str]:
+    """Forbidden tokens (outside comments) in the Lean files a property depends on
+    (all local files when no roots are given)."""
+    if roots is None:
+        files = [f for f in sorted(LEAN_DIR.rglob("*.lean")) if ".lake" not in f.parts]
+    else:
+        files = lean_import_closure(roots)
+    hits = []
+    for f in files:
         code = strip_comments(f.read_text())
         for m in FORBIDDEN.finditer(code):
             hits.append(f"{f.relative_to(LEAN_DIR)}: {m.group(0).strip()}")
@@ -280,7 +303,7 @@ def write_replay(prop: str, payload: dict) -> Path:
 
 
 def write_evidence(prop: str, ev: dict) -> None:
-    EVIDENCE.mkdir(exist_ok=True)
+    EVIDENCE.mkdir(parents=True, exist_ok=True)
     (EVIDENCE / f"{prop}.json").write_text(json.dumps(ev, indent=1, default=str))
 
 
